@@ -148,9 +148,14 @@ class Gen:
         return Decl("type", n, ["TYPE", "  %s : %s;" % (n, ref), "END_TYPE"],
                     {"tkind": "alias", "values": target.info["values"], "of": target.name})
 
-    def struct_type(self):
+    def struct_type(self, enums=()):
         n = self.names.fresh("Rec")
         els = [(self.names.fresh("e"), self.rng.choice(INT_TYPES + ["BOOL"])) for _ in range(self.rng.randint(2, 4))]
+        if enums and self.rng.random() < 0.6:
+            # an element of an enumeration type WITH an initial value: no edge of the declaration graph joins the two types, so
+            # their order after the sort is whatever the order of the declarations makes it
+            e = self.rng.choice(list(enums))
+            els.insert(self.rng.randrange(len(els) + 1), (self.names.fresh("e"), "%s := %s" % (e.name, self.rng.choice(e.info["values"]))))
         lines = ["TYPE", "  %s : STRUCT" % n] + ["    %s : %s;" % e for e in els] + ["  END_STRUCT;", "END_TYPE"]
         return Decl("type", n, lines, {"tkind": "struct", "elements": els})
 
@@ -312,7 +317,9 @@ def gen_valid(rng):
                 a2 = g.alias_type(a1)
                 decls.append(a2)
                 enums.append(a2)
-    for mk in (g.struct_type, g.subrange_type, g.array_type):
+    if rng.random() < 0.5:
+        decls.append(g.struct_type(enums))
+    for mk in (g.subrange_type, g.array_type):
         if rng.random() < 0.5:
             decls.append(mk())
     glob = None
